@@ -600,7 +600,7 @@ def run_case(c, stats):
                         with core.oracle_mode():
                             EXPECT[prod2] = not (extract.fa(fa).accepts(c["word"]) and extract.fa(fa2).accepts(c["word"]))
                         call(prod2.is_empty)
-            ok, prod = call(g.intersection, Regex("a*"))
+            ok, prod = call(lambda: g & Regex("a*"))             # operator form
             if ok:
                 call(lambda: bool(prod))
         return len(rules) >= 3
